@@ -131,6 +131,10 @@ func runBM25History(r *rand.Rand, nops int, allowReadd bool, t *Trace) *Case {
 			if len(live) > 0 && r.Intn(4) == 0 {
 				id = live[r.Intn(len(live))]
 				kind = "bm25.add_replace"
+			} else if gone := sortedKeys(removed); allowReadd && len(gone) > 0 && r.Intn(3) == 0 {
+				// update = remove + add: an id whose removal succeeded (flushed since or not) comes back
+				id = gone[r.Intn(len(gone))]
+				kind = "bm25.add_reuse_removed"
 			} else if allowReadd && len(ever) > 0 && r.Intn(4) == 0 {
 				id = ever[r.Intn(len(ever))]
 				kind = "bm25.add_reuse"
@@ -155,6 +159,7 @@ func runBM25History(r *rand.Rand, nops int, allowReadd bool, t *Trace) *Case {
 			if kind == "bm25.add_fresh" {
 				ever = append(ever, id)
 			}
+			delete(removed, id)
 			ops = append(ops, func(c *Case) { c.N(1).U(uint64(id)).Ints(toks) })
 			t.Stat(kind)
 			if len(toks) == 0 {
@@ -387,4 +392,15 @@ func genC03(r *rand.Rand, t *Trace, thorough bool) {
 		c := runBM25History(r, 6+r.Intn(40), it%3 == 2, t) // every third history also re-adds removed ids
 		t.Emit(c)
 	}
+}
+
+func sortedKeys(m map[uint32]bool) []uint32 {
+	out := make([]uint32, 0, len(m))
+	for k, v := range m {
+		if v {
+			out = append(out, k)
+		}
+	}
+	sort.Slice(out, func(i, j int) bool { return out[i] < out[j] })
+	return out
 }
